@@ -110,8 +110,8 @@ def tc_sec_header(service: IntRange(0, 255), subservice: IntRange(0, 255), sourc
                                                               M + "PusTc.to_space_packet", M + "PusTc.pack"])
 def tc_setters(service: IntRange(0, 255), subservice: IntRange(0, 255), apid: IntRange(0, 2047), count: IntRange(0, 16383),
                source_id: IntRange(0, 65535), ack: IntRange(0, 15), app: BytesLen(0, MAX_APP),
-               which: Choice("app_data", "seq_count", "apid", "source_id"), new_app: BytesLen(0, MAX_APP), new_int: Int,
-               packed_before: Bool):
+               which: Choice("app_data", "seq_count", "apid", "source_id", "sec.service", "sec.ack_flags"), new_app: BytesLen(0, MAX_APP), new_int: Int,
+               packed_before: Bool, view_first: Bool):
     """whatever was set after construction (and whether or not the packet was packed before, which fills the CRC cache):
     reported length, length field, octets, CRC trailer and the space-packet view are those of a freshly built telecommand"""
     tc = PusTc(service, subservice, apid, app, count, source_id, ack)
@@ -128,15 +128,29 @@ def tc_setters(service: IntRange(0, 255), subservice: IntRange(0, 255), apid: In
         requires(both(0 <= new_int, new_int <= 2047))
         tc.apid = new_int
         fresh = PusTc(service, subservice, new_int, app, count, source_id, ack)
-    else:
+    elif which == "source_id":
         requires(both(0 <= new_int, new_int <= 65535))
         tc.source_id = new_int
         fresh = PusTc(service, subservice, apid, app, count, new_int, ack)
+    elif which == "sec.service":                # fields changed through the public header object
+        requires(both(0 <= new_int, new_int <= 255))
+        tc.pus_tc_sec_header.service = new_int
+        fresh = PusTc(new_int, subservice, apid, app, count, source_id, ack)
+    else:
+        requires(both(0 <= new_int, new_int <= 15))
+        tc.pus_tc_sec_header.ack_flags = new_int
+        fresh = PusTc(service, subservice, apid, app, count, source_id, new_int)
     expected = fresh.pack()
-    view = tc.to_space_packet().pack()
-    ensures("space-packet-view-as-fresh", view == expected)
-    r = tc.pack()
-    ensures("octets-as-fresh", r == expected)
+    if view_first:     # both orders: either call may refresh a cached CRC and hide a stale one from the other
+        view = tc.to_space_packet().pack()
+        ensures("space-packet-view-as-fresh", view == expected)
+        r = tc.pack()
+        ensures("octets-as-fresh", r == expected)
+    else:
+        r = tc.pack()
+        ensures("octets-as-fresh", r == expected)
+        view = tc.to_space_packet().pack()
+        ensures("space-packet-view-as-fresh", view == expected)
     ensures("reported-length", tc.packet_len == len(r))
     ensures("length-field", tc.sp_header.data_len == len(r) - 7)
     ensures("crc-residue", crc16(r) == 0)
